@@ -377,7 +377,29 @@ write(*, 10) i
 end subroutine lab
 """
 
-CORPUS_TEXT = {"P1": P1, "P3": P3, "P4": P4, "P5": P5, "P6": P6, "P7": P7, "P8": P8, "P9": P9_08, "Q1": P10}
+P11 = """
+module Mixed_Mod
+implicit none
+integer :: nVal
+contains
+subroutine Sub_A(x)
+real :: x
+x = x + 1.0
+call Inner_P(x)
+contains
+subroutine Inner_P(y)
+real :: y
+y = 2.0 * y
+end subroutine Inner_P
+end subroutine Sub_A
+function Fn_B(k)
+integer :: k, Fn_B
+Fn_B = k + nVal
+end function Fn_B
+end module Mixed_Mod
+"""
+
+CORPUS_TEXT = {"R1": P11, "P1": P1, "P3": P3, "P4": P4, "P5": P5, "P6": P6, "P7": P7, "P8": P8, "P9": P9_08, "Q1": P10}
 _cache = {}
 
 
